@@ -11,10 +11,11 @@ using namespace inov;
 
 struct Opt { const char* name; char type; const char* def; const char* v1; const char* v2; };
 // type: f float, d double, u uint32, i int32, l int64, b bool, s string, v vector<float>
+// single-precision options: the second value has nine or more digits and lies where neighbouring floats share their 8-digit form ([1e6,2^20), [8,16), [0.01,2^-6), [0.1,0.125))
 // def = the default printed by --help ("" = no default documented; the getter then returns the empty string / built-in)
 static const Opt OPTS[] = {
-    {"alpha0", 'f', "4e-3", "5e-3", "1.2345678e-3"}, {"alpha1", 'f', "0", "0.01", "-0.0234567"}, {"alpha2", 'f', "0", "0.5", "-1.25"},
-    {"SynchrotronFrequency", 'f', "0", "45000", "8123.4561"}, {"RevolutionFrequency", 'f', "9e6", "2.7e6", "1234567.9"},
+    {"alpha0", 'f', "4e-3", "5e-3", "1.2345678e-3"}, {"alpha1", 'f', "0", "0.01", "-0.0123456789"}, {"alpha2", 'f', "0", "0.5", "-1.25"},
+    {"SynchrotronFrequency", 'f', "0", "45000", "8123.4561"}, {"RevolutionFrequency", 'f', "9e6", "2.7e6", "1000123.45"},
     {"DampingTime", 'd', "-1", "0.001", "2.5123456789e-3"}, {"HarmonicNumber", 'f', "50", "184", "100"},
     {"InitialDistFile", 's', "", "start.h5", "other.txt"}, {"InitialDistStep", 'l', "-1", "0", "-3"}, {"InitialDistZoom", 'd', "1", "0.8", "1.3456789012"},
     {"BunchCurrent", 'v', "0.003", "1e-3", "1e-3 0 2.3456789e-3"}, {"BendingRadius", 'd', "-1", "5.559", "1.0000000001"},
@@ -27,7 +28,7 @@ static const Opt OPTS[] = {
     {"cldev", 'i', "0", "1", "-1"}, {"output", 's', "", "out.h5", "dir/res.hdf5"}, {"outstep", 'u', "100", "7", "1"}, {"SavePhaseSpace", 'u', "0", "2", "4000000000"},
     {"tracking", 's', "", "t.txt", "p/q=1 b.txt"}, {"verbose", 'b', "0", "1", "1"},
     {"StepsPerTs", 'u', "1000", "64", "4001"}, {"StepsPerRevolution", 'd', "0", "0.5", "0.3141592653"}, {"padding", 'd', "8", "2", "1.5000001"}, {"RoundPadding", 'b', "1", "0", "0"},
-    {"PhaseSpaceSize", 'f', "12", "10", "14.567891"}, {"PhaseSpaceShiftX", 'f', "0", "2", "-1.2345678"}, {"PhaseSpaceShiftY", 'f', "0", "-3", "0.7654321"},
+    {"PhaseSpaceSize", 'f', "12", "10", "10.1234567"}, {"PhaseSpaceShiftX", 'f', "0", "2", "-1.2345678"}, {"PhaseSpaceShiftY", 'f', "0", "-3", "0.1123456789"},
     {"RenormalizeCharge", 'i', "0", "-1", "5"}, {"FPType", 'u', "3", "1", "0"}, {"FPTrack", 'u', "3", "0", "2"}, {"GridSize", 'u', "256", "64", "33"},
     {"rotations", 'd', "5", "1.25", "0.1234567891"}, {"derivation", 'u', "4", "3", "3"}, {"InterpolationPoints", 'u', "4", "3", "2"}, {"InterpolateClamped", 'b', "0", "1", "1"},
 };
